@@ -1472,7 +1472,6 @@ def gen_recipe(rng):
 # ====================================================================== entry points
 
 def run(rec):
-    rec.known_keys |= {k for k in os.environ.get('VERIF_ASSUME_KNOWN', '').split(',') if k}   # triage aid only
     rec.rule = ('a recipe = stack x method x status (int/line/digits/HTTPStatus, unknown codes) x body sources '
                 '(any subset of text/data/media/stream, sse) x preset Content-Type/Content-Length x headers/cookies x '
                 'response class x responder/middleware/sink x fault point (stream raises at k, server write/send fails '
@@ -1602,7 +1601,6 @@ def revive(o):
 
 
 def replay(rec, w):
-    rec.known_keys |= {k for k in os.environ.get('VERIF_ASSUME_KNOWN', '').split(',') if k}
     r = revive(w['witness']['recipe'])
     res = do(rec, r)
     print('replayed recipe:', r)
